@@ -846,6 +846,12 @@ pub fn gen_doc(rng: &mut Rng) -> Value {
     let big = rng.chance(1, 30);
     let p = if big { DocParams { max_nodes: 40 + rng.below(40), max_depth: 3 + rng.below(7), names: gen::NAMES_ADV, max_width: 10, long_arrays: true } } else { DocParams { max_nodes: if wide { 10 + rng.below(12) } else { 6 + rng.below(9) }, max_depth: if wide { 1 + rng.below(2) } else { 1 + rng.below(4) }, names: gen::NAMES_ADV, max_width: if wide { 12 } else { 4 }, long_arrays: true } };
     let mut d = gen::gen_doc(rng, &p);
+    // now and then: an array with three-digit indexes
+    if rng.chance(1, 120) {
+        let n = 101 + rng.below(160);
+        let arr: Vec<Value> = (0..n).map(|i| if i % 50 == 7 { json!({"a": i}) } else if i % 9 == 0 { json!([i]) } else { json!(i) }).collect();
+        d = if rng.chance(1, 2) { json!({"big": arr, "d": d}) } else { Value::Array(arr) };
+    }
     // now and then: the document under 60-120 levels of nesting, or with a member name of a few thousand bytes
     if rng.chance(1, 250) {
         let levels = 60 + rng.below(61);
@@ -915,6 +921,26 @@ pub fn run(run_seed: u64, findings: &[Finding]) -> RunOut {
                 continue;
             }
             1 => {
+                if rng.chance(1, 6) {
+                    // a string that is a query but not a path (negative index, wildcard, slice, filter, descendant,
+                    // shorthand or double-quoted spelling): nothing is promised about it, but the calls are made,
+                    // and whatever they leave behind shows in the judged operations that follow
+                    let locs = npath::all_locs(&ex.model);
+                    let picked: &Loc = rng.pick(&locs);
+                    let base = npath::render(picked);
+                    let odd = match rng.below(8) {
+                        0 => format!("{}[-1]", base),
+                        1 => format!("{}[*]", base),
+                        2 => format!("{}[0:1]", base),
+                        3 => format!("{}..a", base),
+                        4 => format!("{}[?@]", base),
+                        5 => format!("{}.a", base),
+                        6 => format!("{}[\"a\"]", base),
+                        _ => format!("{}[0,1]", base),
+                    };
+                    stashes[c].push(Handle { path: odd, loc: None, born: ops.len() });
+                    continue;
+                }
                 let loc = gen_miss(&mut rng, &ex.model, &mut gen_stats);
                 stashes[c].push(Handle { path: npath::render(&loc), loc: Some(loc), born: ops.len() });
                 continue;
